@@ -145,6 +145,14 @@ impl<D: StorageData> Storage<D> {
         self.data.backup(name)
     }
 
+    pub fn close_transaction(&mut self, id: u64) -> Result<(), DbError> {
+        if self.transactions > id {
+            self.transactions = id;
+        }
+
+        self.end_transaction(id)
+    }
+
     pub fn commit(&mut self, id: u64) -> Result<(), DbError> {
         self.end_transaction(id)
     }
